@@ -615,6 +615,150 @@ fn main() {
         }
     }
 
+    // ---- collect_garbage ∥ writers: systematic enumeration of release orders (deterministic) ----
+    if args.replay.is_none() {
+        let thorough = args.thorough() || search;
+        let (bound, cap) = if thorough { (3usize, 6000usize) } else { (2usize, 260usize) };
+        let mut scenarios: Vec<(Vec<String>, Vec<conc::TaskSpec>)> = vec![];
+        let flavors: Vec<&str> = if thorough { vec!["reset m", "reset e 7", "reset e 1"] } else { vec!["reset m", "reset e 7"] };
+        for fl in &flavors {
+            // key 0: a committed value plus one or two leftover generations (crashed puts); key 1: a copy source
+            let one = vec![fl.to_string(), "put 0 ow 5 1".into(), "put 1 ow 4 2".into(), "crash 1 put 0 ow 3 9".into()];
+            let mut two = one.clone();
+            two.push("crash 1 put 0 ow 6 8".into());
+            let mut setups = vec![one.clone(), two.clone()];
+            if thorough {
+                let mut three = two.clone();
+                three.push("crash 1 copy 1 2 ow".into());
+                setups.push(three);
+                if *fl == "reset m" {
+                    let mut leg = one.clone();
+                    leg.push("legacy 2 3 4".into());
+                    leg.push("crash 2 put 2 ow 2 2".into()); // committed migration, data/2 left behind
+                    setups.push(leg);
+                }
+            }
+            for (si, setup) in setups.iter().enumerate() {
+                use conc::TaskSpec::*;
+                let mut tss: Vec<Vec<conc::TaskSpec>> = vec![
+                    vec![Gc, Put("0".into(), 4, 7)],
+                    vec![Gc, Mput("0".into(), vec![3, 2], 7)],
+                    vec![Gc, Copy("1".into(), "0".into())],
+                    vec![Gc, Ren("1".into(), "0".into())],
+                    vec![Gc, Del("0".into())],
+                ];
+                if !thorough && *fl != "reset m" && si == 0 {
+                    tss.truncate(2);
+                }
+                if thorough {
+                    tss.push(vec![Gc, Put("0".into(), 4, 7), Put("0".into(), 2, 3)]);
+                    tss.push(vec![Gc, Put("0".into(), 4, 7), Copy("1".into(), "2".into())]);
+                    tss.push(vec![Gc, Put("0".into(), 4, 7), Del("0".into())]);
+                    tss.push(vec![Gc, Put("2".into(), 4, 7)]);
+                }
+                for ts in tss {
+                    scenarios.push((setup.clone(), ts));
+                }
+            }
+        }
+        struct SchedRes {
+            ops: Vec<String>,
+            line: String,
+            model: Option<Vec<String>>,
+            setup_lines: Vec<String>,
+            failures: Vec<conc::ConcFailure>,
+            deadlock: bool,
+        }
+        let nthreads = std::thread::available_parallelism().map(|n| n.get()).unwrap_or(4).min(16).min(scenarios.len().max(1));
+        let t0 = std::time::Instant::now();
+        let chunks: Vec<Vec<usize>> = (0..nthreads).map(|t| (t..scenarios.len()).step_by(nthreads).collect()).collect();
+        let outs: Vec<Vec<(usize, Vec<SchedRes>, bool)>> = std::thread::scope(|s| {
+            let hs: Vec<_> = chunks
+                .iter()
+                .map(|idxs| {
+                    let scenarios = &scenarios;
+                    let args = &args;
+                    s.spawn(move || {
+                        let rt = tokio::runtime::Builder::new_current_thread().enable_all().build().unwrap();
+                        let mut model = if search { None } else { ModelProc::from_args(args) };
+                        let mut res = vec![];
+                        for &si in idxs {
+                            let (setup, tasks) = &scenarios[si];
+                            let base = match rt.block_on(run_case(setup)) {
+                                Ok(b) => b,
+                                Err(_) => continue,
+                            };
+                            let (Some(backend), Some(fl)) = (base.backend.clone(), base.flavor) else { continue };
+                            let all: Vec<String> = CONC_KEYS.iter().map(|s| s.to_string()).collect();
+                            let mut v: Vec<SchedRes> = vec![];
+                            let (_, truncated) = conc::explore(&rt, fl, &backend, tasks, &all, bound, cap, |o| {
+                                let mut ops = setup.clone();
+                                ops.push(conc::tasks_line(tasks));
+                                ops.push(format!("schedule {}", o.chosen.iter().map(|c| c.to_string()).collect::<Vec<_>>().join(",")));
+                                let m = model.as_mut().map(|m| ops.iter().map(|op| m.ask(op)).collect::<Vec<_>>());
+                                v.push(SchedRes { ops, line: o.line.clone(), model: m, setup_lines: base.lines.clone(), failures: o.failures.clone(), deadlock: o.deadlock });
+                            });
+                            res.push((si, v, truncated));
+                        }
+                        res
+                    })
+                })
+                .collect();
+            hs.into_iter().map(|h| h.join().expect("worker")).collect()
+        });
+        let mut all: Vec<(usize, Vec<SchedRes>, bool)> = outs.into_iter().flatten().collect();
+        all.sort_by_key(|x| x.0);
+        let (mut nsched, mut ntrunc) = (0u64, 0u64);
+        for (si, v, truncated) in all {
+            if truncated {
+                ntrunc += 1;
+            }
+            rep.hit_n(&format!("sched:{}", scenarios[si].1.iter().map(|t| t.line().split(' ').next().unwrap_or("").to_string()).collect::<Vec<_>>().join("+")), v.len() as u64);
+            for r in v {
+                nsched += 1;
+                rep.case(&r.ops.join("|"), true);
+                if nsched % 500 == 1 && rep.samples.len() < 6 {
+                    rep.sample(json!({"case": format!("sched{si}"), "ops": r.ops, "wrapper": r.line}));
+                }
+                if r.deadlock {
+                    rep.hit("sched:deadlock");
+                    rep.notes.push(format!("schedule ended with unfinished tasks and nothing parked: {:?}", r.ops.last()));
+                }
+                for f in &r.failures {
+                    if reported.insert(f.key.clone()) {
+                        rep.oracle_failure(&f.key, &f.what, &r.ops, &f.expected, &f.observed);
+                    } else {
+                        rep.hit(&format!("failure-again:{}", f.key));
+                    }
+                }
+                if let Some(m) = &r.model {
+                    rep.model_compared += 1;
+                    let ml = rank_times(m);
+                    let sl = rank_times(&r.setup_lines);
+                    let n = r.ops.len();
+                    let mut bad: Option<(String, String, String)> = None;
+                    for i in 0..sl.len().min(n - 2) {
+                        if ml[i] != sl[i] {
+                            bad = Some((format!("wrapper model vs wrapper on `{}`", r.ops[i]), ml[i].clone(), sl[i].clone()));
+                            break;
+                        }
+                    }
+                    if bad.is_none() && ml[n - 1] != r.line {
+                        bad = Some((format!("interleaving model vs wrapper on `{}`", r.ops[n - 1]), ml[n - 1].clone(), r.line.clone()));
+                    }
+                    if let Some((what, m, im)) = bad {
+                        rep.disagreement(&what, &r.ops, &m, &im);
+                    }
+                }
+            }
+        }
+        rep.notes.push(format!(
+            "interleavings: {nsched} complete schedules of collect_garbage || writers over {} scenarios (pre-emption bound {bound}, cap {cap}/scenario, {ntrunc} truncated), {:.1}s",
+            scenarios.len(),
+            t0.elapsed().as_secs_f64()
+        ));
+    }
+
     // GC racing real writer tasks on a multi-thread runtime: measured only
     if args.replay.is_none() {
         let mt = tokio::runtime::Builder::new_multi_thread().worker_threads(4).enable_all().build().unwrap();
